@@ -93,6 +93,9 @@ def cases(tier, rng):
         if s not in ALL:
             for f in STRFNS:
                 yield Case(f, [s], "unknown/" + f.split(".")[1])
+    for f in STRFNS:                      # the empty string (Key('') itself is outside the property, see ASSUMPTIONS)
+        if f != "keys.Key":
+            yield Case(f, [""], "unknown/empty")
     n = 2 if tier == "quick" else 4
     for k in ALL:
         for l in LETTERS:
@@ -115,7 +118,8 @@ def oracle(c, obs):
         if k not in ALL:
             if fn == "keys.is_valid_key":
                 return None if obs is False else "unknown key reported valid"
-            return None if obs == Err("NoteFormatError") or (k == "" and obs == Err("IndexError")) else "unknown key not rejected with NoteFormatError"
+            # only Key('') itself indexes the empty string before validating (outside the property, see ASSUMPTIONS)
+            return None if obs == Err("NoteFormatError") or (k == "" and fn == "keys.Key" and obs == Err("IndexError")) else "unknown key not rejected with NoteFormatError"
         if fn == "keys.is_valid_key":
             return None if obs is True else "known key reported invalid"
         if fn == "keys.get_key_signature":
